@@ -149,11 +149,19 @@ def run(chk):
         cases.append(t)
     for _ in range(chk.scale(60, 1000)):
         cases.append("".join(chr(rng.choice(list(range(9, 14)) + list(range(32, 127)) + [0, 128, 255])) for _ in range(rng.randint(1, 60))))
+    # layout at the end of the file: the last statement on the last line, with and without a final newline
+    for tail in ["", "\n", "\n\n", "\n// c\n", " ", "\n}"]:
+        for b in ["char x;\nvoid main() { x = 1; }", "char x;\nvoid main() {\n  x = 1; }", "char x;\nvoid f() { x = 2; }\nvoid main() { f(); }"]:
+            cases.append(b + tail)
     seen_sigs = {}
-    for src in cases:
+    for ci, src in enumerate(cases):
         nlines = {"main.c": src.count("\n") + 1}
-        for level in ((1,) if chk.quick() else (0, 1)):
-            r = h.compile(src, level)
+        # options are part of the input: a quarter of the cases is also compiled with the source listing on
+        variants = [(lv, ()) for lv in ((1,) if chk.quick() else (0, 1))]
+        if ci % 4 == 0 or len(src) < 80:
+            variants.append((1, ("ic",)))
+        for level, flags in variants:
+            r = h.compile(src, level, flags=flags)
             chk.count("outcome_" + r["status"])
             c = classify(r, src, nlines)
             chk.case(key=(src, level), nontrivial=r["status"] != "ok")
@@ -162,7 +170,7 @@ def run(chk):
             sig, what = c
             if sig not in seen_sigs:
                 seen_sigs[sig] = src
-                chk.fail(sig, what, {"source": src, "level": level})
+                chk.fail(sig, what, {"source": src, "level": level, "flags": list(flags)})
         # outcome class of the preprocessor alone: model vs code
         # (`$` is not a character of any C token; in a macro body the regex replacement syntax of the real
         #  implementation gives it a meaning the model does not reproduce — outside the modelled domain)
